@@ -33,7 +33,18 @@ def run(rep, tier):
     agg = runner.correspondence(rep, prop=PROP, mod_name="harness.shadowc", driver_kind="mux",
                                 ncases=rep.scale(200) if tier == "quick" else 20000, oracle_props={"C19"},
                                 sample_fmt=lambda r: {"layout": r["lines"][:8], "real": r["obs"]})
+    from .. import shadowc
+    ex = runner.correspondence(rep, prop=PROP, mod_name="harness.shadowc", driver_kind="mux", ncases=shadowc.exh_count(),
+                               extra=("exh",), oracle_props={"C19"})
+    big = runner.correspondence(rep, prop=PROP, mod_name="harness.shadowc", driver_kind="mux", ncases=rep.scale(40) if tier == "quick" else 2000,
+                                extra=("big",), oracle_props={"C19"})
     rep.coverage.update(agg)
+    rep.coverage["bounded_exhaustive"] = {"what": "EVERY layout of <= 3 registers (1-3 words) in 8 addresses x sharing limit {None,0,1,2} x 3 direction patterns",
+                                          "cases": ex["evaluations"], "correspondence_diffs": ex["correspondence_diffs"], "oracle_failures": ex["oracle_failures"],
+                                          "distribution": ex["distribution"]}
+    rep.coverage["large_address_spaces"] = {"cases": big["evaluations"], "correspondence_diffs": big["correspondence_diffs"],
+                                            "oracle_failures": big["oracle_failures"], "distribution": big["distribution"]}
+    agg = dict(agg, evaluations=agg["evaluations"] + ex["evaluations"] + big["evaluations"])
     rep.coverage["evaluations"] = n + agg["evaluations"]
     rep.coverage["distinct_nontrivial"] = sum(1 for r in res if r["status"] == "ok") + agg["distinct_nontrivial"]
     rep.coverage["sweep"] = dict(st)
@@ -44,6 +55,7 @@ def run(rep, tier):
                             "compared before/after, exception class and raise site classified (ValueError/TypeError from an explicit "
                             "`raise` = descriptive refusal, anything else = internal), 120 s watchdog; non-trivial = instance that "
                             "elaborated three times; (b) random unaligned layouts × sharing limits: real _Shadow sizes / refusal vs "
-                            "the Lean model of prepare()")
+                            "the Lean model of prepare(), plus every small layout (bounded_exhaustive) and far-apart registers in 16-32 bit "
+                            "address spaces (large_address_spaces)")
     rep.assumptions += ["Python exceptions, lib.memory's own freeze rule and Amaranth's elaboration are not modelled in Lean: "
                         "the 'never an internal error' clause is explored, not proved (label: partial)"]
